@@ -3,7 +3,7 @@ package checks
 import "gosym/sym"
 
 func init() {
-	exact := sym.Config{Float: sym.FloatReal, OneShotAsserts: true}
+	exact := sym.Config{Float: sym.FloatReal, OneShotAsserts: true, StopAfterViolation: true}
 	Register(&Spec{
 		ID:    "C20",
 		Level: "model_checking",
@@ -20,13 +20,19 @@ func init() {
 			if tier == "thorough" {
 				orient = 2
 			}
-			return []*Run{
+			runs := []*Run{
 				{H: sym.Harness{Pkg: "matrix", Func: "VerifHarness_C20_Algebra", Cfg: exact}, ExpectReach: []string{"algebra"}},
 				{H: sym.Harness{Pkg: "matrix", Func: "VerifHarness_C20_Inverse", Cfg: exact, TimeoutMs: 120000}, ExpectReach: []string{"inverted"}},
 				{H: sym.Harness{Pkg: "matrix", Func: "VerifHarness_C20_Singular", Cfg: sym.Config{OneShotAll: true, OneShotAsserts: true}, TimeoutMs: 300000, Workers: 5}, ExpectReach: []string{"singular-tried"}, SamplePaths: 2},
 				{H: sym.Harness{Pkg: "ciexyz", Func: "VerifHarness_C20_Primaries", Cfg: exact, TimeoutMs: 300000, Workers: 2, SetGlobals: map[string]int64{"verifC20Orient": orient}}, ExpectReach: []string{"matrix-built"}},
 				{H: sym.Harness{Pkg: "matrix", Func: "VerifHarness_C20_NegControl", Cfg: exact}, NegControl: true},
 			}
+			if tier == "thorough" {
+				runs = append(runs,
+					&Run{H: sym.Harness{Pkg: "ciexyz", Func: "VerifHarness_C20_PrimariesInverse", Cfg: exact, TimeoutMs: 600000}, BestEffort: true},
+					&Run{H: sym.Harness{Pkg: "matrix", Func: "VerifHarness_C20_Singular", Cfg: sym.Config{OneShotAll: true, OneShotAsserts: true}, TimeoutMs: 900000, Workers: 6, SetGlobals: map[string]int64{"verifC20Kinds": 6}}, BestEffort: true})
+			}
+			return runs
 		},
 		Assumptions: []string{"float64/float32 rounding is not modelled in the exact-real parts: the real-arithmetic identities hold exactly; accumulated rounding is assumed below the property's tolerance (1e-9 x condition number)"},
 	})
@@ -43,6 +49,12 @@ func init() {
 				{H: sym.Harness{Pkg: "ciexyz", Func: "VerifHarness_C12_Linear", Cfg: exact}, ExpectReach: []string{"applied"}},
 				{H: sym.Harness{Pkg: "ciexyz", Func: "VerifHarness_C12_NegControl", Cfg: exact}, NegControl: true},
 			}
+			if tier == "thorough" {
+				runs = append(runs,
+					&Run{H: sym.Harness{Pkg: "ciexyz", Func: "VerifHarness_C12_SharedCoordinate", Cfg: exact, TimeoutMs: 300000}, BestEffort: true},
+					&Run{H: sym.Harness{Pkg: "ciexyz", Func: "VerifHarness_C12_RoundTrip", Cfg: exact, TimeoutMs: 600000}, BestEffort: true},
+					&Run{H: sym.Harness{Pkg: "ciexyz", Func: "VerifHarness_C12_Compose", Cfg: exact, TimeoutMs: 600000}, BestEffort: true})
+			}
 			return runs
 		},
 		Assumptions: []string{"float rounding is not modelled (exact reals with the float64-rounded Bradford constants the code uses); accumulated rounding is assumed below 1e-9"},
@@ -55,13 +67,17 @@ func init() {
 			return map[string]interface{}{"xyz": "[-0.5,2]^3 (round trip: [0,2]^3)", "white": "[0.25,2]^3", "outside": "Lab->XYZ->Lab (attempted in the thorough tier; undecided within the time limit here), accuracy of the platform's math.Pow, float rounding (budget)"}
 		},
 		Runs: func(tier string, seed int64) []*Run {
-			return []*Run{
+			runs := []*Run{
 				{H: sym.Harness{Pkg: "ciexyz", Func: "VerifHarness_C13_Definition", Cfg: exact}, ExpectReach: []string{"lab-computed"}},
 				{H: sym.Harness{Pkg: "ciexyz", Func: "VerifHarness_C13_White", Cfg: exact}, ExpectReach: []string{"white-checked"}},
 				{H: sym.Harness{Pkg: "ciexyz", Func: "VerifHarness_C13_MonotoneContinuous", Cfg: exact}, ExpectReach: []string{"monotone-checked"}},
 				{H: sym.Harness{Pkg: "ciexyz", Func: "VerifHarness_C13_RoundTrip", Cfg: exact, TimeoutMs: 120000}, ExpectReach: []string{"roundtrip-lab"}},
 				{H: sym.Harness{Pkg: "ciexyz", Func: "VerifHarness_C13_NegControl", Cfg: exact}, NegControl: true},
 			}
+			if tier == "thorough" {
+				runs = append(runs, &Run{H: sym.Harness{Pkg: "ciexyz", Func: "VerifHarness_C13_LabRoundTrip", Cfg: exact, TimeoutMs: 600000, Workers: 8}, BestEffort: true})
+			}
+			return runs
 		},
 		Assumptions: []string{"math.Pow is exact on symbolic arguments (witness contract); float rounding is not modelled (budget 1e-9 against the tolerances 1e-3 / 1e-5)"},
 	})
